@@ -1,0 +1,19 @@
+//go:build verif
+
+package page
+
+import (
+	commonfileutil "github.com/lindb/common/pkg/fileutil"
+)
+
+// VerifSetRemoveFile replaces the function the page factory removes the file of an expired page
+// with (TruncatePages); nil restores the production function. Together with the exported
+// MMapCloseFunc this lets the verification harness observe the individual steps of a page
+// truncation (unmap, file removal). Build tag verif only, no behaviour change when unused.
+func VerifSetRemoveFile(fn func(path string) error) {
+	if fn == nil {
+		removeFileFunc = commonfileutil.RemoveFile
+		return
+	}
+	removeFileFunc = fn
+}
